@@ -1182,8 +1182,17 @@ def run(ctx: Ctx) -> None:
         judge.flush(sh)
     # session states: the same messages through read_open / read_keepalive (what OPENSENT / OPENCONFIRM call)
     sh = shapes[0]
+    # ... and everything that decodes and carries peer-chosen content (every NOTIFICATION code x subcode x data shape,
+    # OPERATIONAL advisories, capabilities with text): in these states the message is refused (5/1, 5/2) and the
+    # refusal is built around the decoded message — it must still be a NOTIFICATION, not a Python error
+    state_cases = [(c.ty, c.body) for c in enumerated_non_update(rng, sh, ctx.tier)]
+    state_cases += [(c.ty, c.body) for c in valid_opens(rng, sh, 6 if quick else 60)] + [(c.ty, c.body) for c in valid_others(rng, sh, 6 if quick else 60)]
+    seen_state: set = set()
     for via in ('read_open', 'read_keepalive'):
-        for ty, body in [(1, bytes([4]) + u16(65001) + u16(180) + bytes([2, 2, 2, 2, 0])), (2, bytes(4)), (2, update(base_attrs(sh), v4nlri(1))), (3, bytes([6, 2])), (4, b''), (5, u16(1) + bytes([0, 1])), (6, bytes(4)), (9, b''), (1, bytes(3)), (2, b'\x00')]:
+        for ty, body in [(1, bytes([4]) + u16(65001) + u16(180) + bytes([2, 2, 2, 2, 0])), (2, bytes(4)), (2, update(base_attrs(sh), v4nlri(1))), (3, bytes([6, 2])), (4, b''), (5, u16(1) + bytes([0, 1])), (6, bytes(4)), (9, b''), (1, bytes(3)), (2, b'\x00')] + state_cases:
+            if (via, ty, bytes(body)) in seen_state:
+                continue
+            seen_state.add((via, ty, bytes(body)))
             o = T.read_message(sh, ty, body, via=via)
             ctx.evaluations += 1
             ctx.count(f'state:{via}:{o.key()}')
